@@ -47,12 +47,15 @@ PROPS = {
                          'hand model (coq/Model/Writer.v): numpy slicing clips, np.pad edge = clamp, buffer row a of plane set p = padded row p*bs0+a, zfpy.compress_numpy emits unit codes in C order (validated: harness O3 + byte-exact comparison of every array handed to the compressor)'],
                 assumptions=['FIFO order of the two queues (C16)', 'MinimalInlineReader.read_line(L) returns line L of the SEG-Y (pinned; validated by the reduced-I/O route cases)',
                              'VDS/ZGY routes: not executed in the quick tier (ZGY cannot run in this sandbox: np.round_)']),
-    'C02': dict(gen_targets=READER_TARGETS, pins=READER_PINS + COORD_PINS, harness=['reads.py', 'coords.py'],
-                trusted=['positive denominators of the rate fraction assumed when comparing rationals'],
-                assumptions=['codec values are abstract: results are provenance grids; bitwise equality follows for any unit-local codec'],
+    'C02': dict(gen_targets=READER_TARGETS + ['Coords'], pins=READER_PINS + COORD_PINS, harness=['reads.py', 'coords.py', 'coordsx.py'],
+                trusted=['positive denominators of the rate fraction assumed when comparing rationals',
+                         'tools/genx_coords.py (fail-closed whole-body templates of coord_to_index, gen_coord_list, the get_*_index / read_*_number / read_zslice_coord / get_trace_by_coord methods and the axes block of SgzReader.__init__)'],
+                assumptions=['codec values are abstract: results are provenance grids; bitwise equality follows for any unit-local codec',
+                             'Props/C02d.v: coordinates are an abstract type with decidable equality (Z for line numbers); float64 rounding of the sample axis is outside the model and covered by the oracle in coords.py / coordsx.py'],
                 notes=[]),
-    'C14': dict(gen_targets=READER_TARGETS, pins=READER_PINS + COORD_PINS, harness=['reads.py', 'coords.py'], trusted=[],
-                assumptions=['by-number / by-coordinate entry points (coord_to_index + the ordinal methods) are pinned and checked by the direct oracle coords.py; the ordinal methods are proved']),
+    'C14': dict(gen_targets=READER_TARGETS + ['Coords'], pins=READER_PINS + COORD_PINS, harness=['reads.py', 'coords.py', 'coordsx.py'],
+                trusted=['tools/genx_coords.py (fail-closed whole-body templates of the by-number / by-coordinate entry points)'],
+                assumptions=['Props/C14b.v: an off-axis line number or coordinate is refused before any loader call, for every axis (abstract coordinates with decidable equality); float64 sample axes by the oracles coords.py / coordsx.py']),
     'C07': dict(gen_targets=READER_TARGETS + ['OpenIO', 'Headers', 'Caches'], pins=READER_PINS + pins_of('C07'),
                 harness=['reads.py', 'iocost.py'],
                 trusted=['tools/genx_openio.py (fail-closed extraction of the file accesses of opening, preload, the range-read choke point, gen_trace_header, the chunk key of get_trace and the diagonal loops, plus a census that no other statement of read.py / loader.py touches the file)',
